@@ -148,7 +148,7 @@ class MeasurementGate(raw_types.Gate):
             new_mask[b] = not new_mask[b]
         return MeasurementGate(
             self.num_qubits(),
-            key=self.key,
+            key=self.mkey,
             invert_mask=tuple(new_mask),
             qid_shape=self._qid_shape,
             confusion_map=self.confusion_map,
